@@ -49,6 +49,17 @@ type zzImage struct {
 	kvs      []zzKV
 	errs     []string
 	pagesOK  bool
+	collect  bool // true: key-order conditions are collected into ordered instead of asserted
+	ordered  bool
+}
+
+// order records a key-order condition (possibly symbolic).
+func (im *zzImage) order(c bool, id string) {
+	if im.collect {
+		im.ordered = zz.And(im.ordered, c)
+		return
+	}
+	zz.Assert(c, id)
 }
 
 func zzFNV64a(b []byte) uint64 {
@@ -79,8 +90,10 @@ const zzNoFreelist = 0xffffffffffffffff
 func (im *zzImage) err(s string) { im.errs = append(im.errs, s) }
 
 // zzDecode reads a whole file image with the given page size.
-func zzDecode(b []byte, ps int) *zzImage {
-	im := &zzImage{b: b, ps: ps, cur: -1, refs: map[uint64]int{}}
+func zzDecode(b []byte, ps int) *zzImage { return zzDecodeMode(b, ps, false) }
+
+func zzDecodeMode(b []byte, ps int, collect bool) *zzImage {
+	im := &zzImage{b: b, ps: ps, cur: -1, refs: map[uint64]int{}, collect: collect, ordered: true}
 	im.meta[0] = zzReadMeta(b, 0)
 	im.meta[1] = zzReadMeta(b, ps)
 	switch {
@@ -193,10 +206,10 @@ func (im *zzImage) walkPage(pg uint64, depth int, lo, hi []byte, isRoot bool) {
 			}
 			key := im.b[off+ko : off+ko+ksize]
 			if i > 0 {
-				zz.Assert(bytes.Compare(prevKey, key) < 0, "R/branch-keys-ordered")
+				im.order(bytes.Compare(prevKey, key) < 0, "R/branch-keys-ordered")
 			}
 			if i == 0 && lo != nil {
-				zz.Assert(bytes.Compare(lo, key) <= 0, "R/branch-first-key>=parent-separator")
+				im.order(bytes.Compare(lo, key) <= 0, "R/branch-first-key>=parent-separator")
 			}
 			prevKey = key
 			var nhi []byte = hi
@@ -234,13 +247,13 @@ func (im *zzImage) walkLeaf(p []byte, count, depth int, lo, hi []byte) {
 		key := p[ko : ko+ksize]
 		val := p[ko+ksize : ko+ksize+vsize]
 		if i > 0 {
-			zz.Assert(bytes.Compare(prevKey, key) < 0, "R/leaf-keys-ordered")
+			im.order(bytes.Compare(prevKey, key) < 0, "R/leaf-keys-ordered")
 		}
 		if i == 0 && lo != nil {
-			zz.Assert(bytes.Compare(lo, key) <= 0, "R/leaf-first-key>=parent-separator")
+			im.order(bytes.Compare(lo, key) <= 0, "R/leaf-first-key>=parent-separator")
 		}
 		if i == count-1 && hi != nil {
-			zz.Assert(bytes.Compare(key, hi) < 0, "R/leaf-last-key<next-separator")
+			im.order(bytes.Compare(key, hi) < 0, "R/leaf-last-key<next-separator")
 		}
 		prevKey = key
 		if fl&0x01 != 0 { // nested bucket
@@ -391,4 +404,40 @@ func zzFreeAndPending(db *DB) []uint64 {
 		out[i] = uint64(id)
 	}
 	return out
+}
+
+
+// zzConsistent: the independent decoder's verdict on an image as one boolean: structure decodable,
+// every page below the high-water mark exactly one of {tree page (once), freelist page, listed free
+// (once)}, keys ordered within pages and against parent separators, page types valid.
+func zzConsistent(im *zzImage) bool {
+	if len(im.errs) != 0 || im.cur < 0 {
+		return false
+	}
+	owner := map[uint64]int{}
+	for pg, n := range im.refs {
+		if n != 1 {
+			return false
+		}
+		owner[pg] += n
+	}
+	if im.hasFL {
+		for i := 0; i < im.flTotal; i++ {
+			owner[im.m.freelist+uint64(i)]++
+		}
+	}
+	seen := map[uint64]bool{}
+	for _, f := range im.free {
+		if f < 2 || f >= im.m.hwm || seen[f] {
+			return false
+		}
+		seen[f] = true
+		owner[f]++
+	}
+	for pg := uint64(2); pg < im.m.hwm; pg++ {
+		if owner[pg] != 1 {
+			return false
+		}
+	}
+	return im.ordered
 }
